@@ -77,7 +77,8 @@ def findings():
         def cell(x):
             return re.sub(r"\s+", " ", str(x or "")).replace("|", "/")[:260]
         out.append("| %s | %s | %s | %s | %s |" % (os.path.basename(d), cell(m.get("what_changes")), cell(m.get("needs_to_manifest")),
-                                                   cell(", ".join(det.get("refuted_obligations", [])) or det.get("note", "")), det.get("exit", "?")))
+                                                   cell(", ".join(det.get("refuted_obligations", [])) or det.get("note", "")),
+                                                   str(det.get("exit", "?")) + (" (was %s before strengthening)" % m["earlier_detection"]["exit"] if m.get("earlier_detection") else "")))
     return "\n".join(out)
 
 def main():
